@@ -265,17 +265,35 @@ def u2u3(fb, chk, defs):
                     if v is None:
                         chk.bad("U3", "%s:%s" % (key, fld), "field %s not initialised" % fld, f.loc(t["line"]))
                         continue
-                    r, chain = peel(v, through_calls={"into", "from", "as_raw_fd", "clone", "map_or"})
-                    nm = None
-                    if r[0] == "param":
-                        nm = r[2]
-                    elif r[0] == "field":
-                        nm = r[2]
-                    elif r[0] == "call":
-                        nm = r[1]
-                        if r[1] == "map_or":
-                            rr, _ = peel(r[2][0])
-                            nm = rr[2] if rr[0] == "param" else nm
+                    alts = list(v[2]) if v[0] == "phi" else [v]
+                    nms, chain, consts = set(), [], []
+                    for alt in alts:
+                        r, ch = peel(alt, through_calls={"into", "from", "as_raw_fd", "clone", "map_or"})
+                        chain += [c2 for c2 in ch if c2 not in chain]
+                        while r[0] in ("down", "unwrap", "field") and r[0] != "param" and len(alts) > 1:
+                            # payload of an Option parameter: (fd as Some).0
+                            r2, ch2 = peel(r[1])
+                            if r2 == r:
+                                break
+                            r = r2
+                        if r[0] == "const" and len(alts) > 1:
+                            consts.append(r[1])
+                        elif r[0] == "param":
+                            nms.add(r[2])
+                        elif r[0] == "field":
+                            nms.add(r[2])
+                        elif r[0] == "call":
+                            n2 = r[1]
+                            if r[1] == "map_or":
+                                rr, _ = peel(r[2][0])
+                                n2 = rr[2] if rr[0] == "param" else n2
+                            nms.add(n2)
+                        else:
+                            nms.add(None)
+                    # an absent Option parameter is encoded as -1 (the UAPI's "no descriptor")
+                    if consts and not all(c in (-1, 0xffffffff) for c in consts):
+                        nms.add("<const %s>" % consts)
+                    nm = next(iter(nms)) if len(nms) == 1 else (tuple(sorted(str(x) for x in nms)) if nms else None)
                     from rules.c01 import _narrows
                     narrowing = [c2 for c2 in chain if c2.startswith("cast:") and _narrows(c2) and "usize->u32" not in c2]
                     chk.check(nm == src and not narrowing, "U3", "%s:%s" % (key, fld), "%s <- %s %s" % (fld, nm, chain),
